@@ -7,6 +7,7 @@ import numpy as np
 import common
 from common import zl, ql, bl, lst, zlist, qlist, frac
 from translate import Anchors, Untranslatable, ExprTr
+from props.C11 import norm
 
 PID = "C06"
 AB = "acryo/alignment/_base.py"
@@ -63,6 +64,13 @@ def anchors(a: Anchors):
     a.expr("post_label", LB, "LoaderBase._post_align_multi_templates",
            ("find", lambda n: isinstance(n, ast.If) and "labels" in ast.unparse(n.body[0]), 0, "labels %= remainder"),
            {"labels": "Z", "remainder": "Z"}, want="Z", post=post_label)
+    def cast_after(fn):
+        body = fn.body
+        idx_mod = [i for i, st in enumerate(body) if isinstance(st, ast.If) and "labels %= remainder" in ast.unparse(st)]
+        idx_cast = [i for i, st in enumerate(body) if isinstance(st, ast.Assign) and norm(ast.unparse(st)) == "labels=labels.astype(np.uint8)"]
+        idx_init = [i for i, st in enumerate(body) if isinstance(st, ast.Assign) and norm(ast.unparse(st)) == "labels=np.zeros(len(results),dtype=np.uint32)"]
+        return len(idx_mod) == 1 and len(idx_cast) == 1 and len(idx_init) == 1 and idx_cast[0] > idx_mod[0]
+    a.fact("label_cast_after_modulo", LB, "LoaderBase._post_align_multi_templates", "uint32 labels; %= remainder; then astype(uint8)", cast_after)
     a.expr("group_remainder", LG, "LoaderGroup.align_multi_templates",
            ("find", lambda n: isinstance(n, ast.Call) and ast.unparse(n.func) == "remainders.append", 0, "remainders.append"),
            {"hasrot": "B", "T": "Z"}, env={"len(_tmps)": ("T", "Z"), "model.has_rotation": ("hasrot", "B")},
@@ -145,6 +153,11 @@ def corr_scripted(ck, rng):
                 q = np.asarray(model.quaternions)
                 qi = [i for i in range(len(q)) if np.allclose(q[i], res.quat)]
                 got = [int(res.label), qi[0] if qi else -1, int(round(float(res.shift[0]) * 100)), frac(float(res.score))]
+                win = int(np.argmax(sc))
+                ck.oracle_count("scripted_winner_identity", 1, 1)
+                if (got[0], got[1]) != (win, win // T) or abs(float(got[3]) - sc[win]) > 1e-6:
+                    ck.violation(what=f"model.align: best candidate has flat index {win} (rotation #{win // T}) but the result reports label {got[0]}, rotation #{got[1]}",
+                                 inp={"T": T, "K": K, "scores": sc}, key={"site": "model.align", "T>1": T > 1, "K>1": K > 1}, oracle="scripted_winner_identity")
                 classes[f"T{'>' if T>1 else '='}1,K{'>' if K>1 else '='}1"] = classes.get(f"T{'>' if T>1 else '='}1,K{'>' if K>1 else '='}1", 0) + 1
                 cases.append((f"(check_align {zl(T)} {zl(K)} {qlist([frac(s) for s in sc])} {zl(got[0])} {zl(got[1])} {zl(got[2])} {ql(got[3])})",
                               {"T": T, "K": K, "scores": sc, "impl": [got[0], got[1], got[2], float(got[3])], "level": "model.align"}))
@@ -154,13 +167,15 @@ def corr_scripted(ck, rng):
 
 def corr_loader(ck, rng):
     """loader.align_multi_templates and LoaderGroup.align_multi_templates with scripted scores:
-    the label feature, score feature and rotation feature of every molecule against the model."""
+    the label feature, score feature and rotation feature of every molecule against the model.
+    Includes per-group template lists of different lengths and a search with more than 256 candidates."""
     from acryo import SubtomogramLoader, Molecules
     from scipy.spatial.transform import Rotation
     Stub = make_stub()
     cases = []
-    combos = [(2, 1), (2, 3), (3, 2), (1, 3)] if ck.tier == "quick" else [(t, k) for t in range(1, 5) for k in range(1, 5)]
-    for (T, K) in combos:
+    combos = [(2, 1, None), (2, 3, None), (3, 2, None), (1, 3, None), (3, 89, "big")] if ck.tier == "quick" else \
+             [(t, k, None) for t in range(1, 5) for k in range(1, 5)] + [(3, 89, "big"), (5, 61, "big")]
+    for (T, K, tag) in combos:
         if T == 1 and K == 1:
             continue
         nm = 4
@@ -173,26 +188,47 @@ def corr_loader(ck, rng):
         mol = Molecules(np.array(pos, dtype=np.float32), features=feat)
         ld = SubtomogramLoader(tomo, mol, order=0, output_shape=(3, 3, 3))
         tmpls = [rng.normal(size=(3, 3, 3)).astype(np.float32) for _ in range(T)]
-        rots = rot_set(K, rng) if K > 1 else None
-        n = T * K
-        script = {p: [float(x) for x in rng.permutation(n)] for p in range(nm)}
-        Stub.script = script
-        kw = dict(rotations=rots) if rots is not None else {}
-        for via in ("loader", "group", "group-mapping"):
+        if tag == "big":
+            half = (K - 1) // 2
+            rots = ((half, 1), (0, 0), (0, 0))
+            kw = dict(rotations=rots)
+        else:
+            rots = rot_set(K, rng) if K > 1 else None
+            kw = dict(rotations=rots) if rots is not None else {}
+        vias = ["loader"] if tag == "big" else ["loader", "group", "group-mapping", "group-hetero"]
+        for via in vias:
             if T == 1 and via != "loader":
                 continue
+            # number of templates seen by each molecule's group
+            if via == "group-hetero":
+                if T < 2:
+                    continue
+                Tg = {"a": T, "b": T - 1}
+            else:
+                Tg = {"a": T, "b": T}
+            Tp = [Tg[feat["grp"][p]] for p in range(nm)]
+            script = {}
+            for p in range(nm):
+                n = Tp[p] * K
+                sc = [float(x) for x in rng.permutation(n)]
+                if tag == "big":
+                    hi = int(rng.integers(256, n))       # the winner has a flat index >= 256
+                    sc[hi] = float(n + 5)
+                script[p] = sc
+            Stub.script = script
             try:
                 if via == "loader":
                     if T == 1:
                         out = ld.align(tmpls[0], max_shifts=1.0, alignment_model=Stub, **kw)
-                        rows = [(out.molecules, [0, 1, 2, 3])]
                     else:
                         out = ld.align_multi_templates(tmpls, max_shifts=1.0, alignment_model=Stub, **kw)
-                        rows = [(out.molecules, [0, 1, 2, 3])]
+                    rows = [(out.molecules, [0, 1, 2, 3])]
                 else:
                     grp = ld.groupby("grp")
-                    tm = tmpls if via == "group" else {k: tmpls for k in grp.keys}
-                    # per-group mapping with one more group than templates makes len(mapping) != T
+                    if via == "group":
+                        tm = tmpls
+                    else:
+                        tm = {k: tmpls[:Tg[k]] for k in grp.keys}
                     out = grp.align_multi_templates(tm, max_shifts=1.0, alignment_model=Stub, **kw)
                     rows = []
                     for key, l2 in out:
@@ -203,21 +239,29 @@ def corr_loader(ck, rng):
                              key={"site": via, "symptom": "raised"}, oracle="corr:scripted_loader")
                 continue
             quats = Rotation.from_quat(np.asarray(Stub(tmpls if T > 1 else tmpls[0], **kw).quaternions))
+            qm = quats.as_matrix()
             for mols, ids in rows:
                 f = mols.features
                 for r, p in enumerate(ids):
                     lab = int(f["labels"][r]) if "labels" in f.columns else 0
                     sc = float(f["score"][r])
                     rv = np.array([f["align-dzrot"][r], f["align-dyrot"][r], f["align-dxrot"][r]], dtype=float)
-                    # which searched rotation does the rotvec feature denote?
-                    qi = -1
-                    for k in range(len(quats)):
-                        if np.allclose(Rotation.from_rotvec(rv).as_matrix(), quats[k].as_matrix(), atol=1e-3):
-                            qi = k
-                    cases.append((f"(check_loader {zl(T)} {zl(K)} {qlist([frac(s) for s in script[p]])} {zl(lab)} {zl(qi)} {ql(frac(sc))})",
-                                  {"T": T, "K": K, "via": via, "molecule": p, "scores": script[p], "impl": [lab, qi, sc]}))
-    ck.corr_run("scripted_loader", ["AcryoGen.Anchors_C06", "Acryo.C06.Model"], cases, shard=500, observable=True,
-                describe=lambda c: {"site": c["via"], "T>1": c["T"] > 1, "K>1": c["K"] > 1})
+                    M = Rotation.from_rotvec(rv).as_matrix()
+                    hit = np.where(np.abs(qm - M).reshape(len(qm), -1).max(axis=1) < 2e-3)[0]
+                    qi = int(hit[0]) if len(hit) else -1
+                    # implementation-only oracle: candidates are (rotation-major, template-minor), so the winner's identity is known
+                    win = int(np.argmax(script[p]))
+                    want_lab, want_rot = (win % Tp[p], win // Tp[p])
+                    ck.oracle_count("scripted_winner_identity", 1, 1)
+                    if (lab, qi) != (want_lab, want_rot) or abs(sc - script[p][win]) > 1e-6:
+                        ck.violation(what=f"{via}: best candidate is (template {want_lab}, rotation #{want_rot}, score {script[p][win]}) but the result "
+                                          f"reports (label {lab}, rotation #{qi}, score {sc})",
+                                     inp={"T": Tp[p], "K": K, "via": via, "molecule": p, "scores": script[p], "winner_flat_index": win},
+                                     key={"site": via, "T>1": Tp[p] > 1, "K>1": K > 1, "winner>=256": win >= 256}, oracle="scripted_winner_identity")
+                    cases.append((f"(check_loader {zl(Tp[p])} {zl(K)} {qlist([frac(s_) for s_ in script[p]])} {zl(lab)} {zl(qi)} {ql(frac(sc))})",
+                                  {"T": Tp[p], "K": K, "via": via, "molecule": p, "winner": int(np.argmax(script[p])), "impl": [lab, qi, sc]}))
+    ck.corr_run("scripted_loader", ["AcryoGen.Anchors_C06", "Acryo.C06.Model"], cases, shard=60, observable=True,
+                describe=lambda c: {"site": c["via"], "T>1": c["T"] > 1, "K>1": c["K"] > 1, "winner>=256": c["winner"] >= 256})
 
 
 def oracle_real(ck, rng):
